@@ -103,8 +103,13 @@ def _leaves(node, lo=None, hi=None):
     for comb in ("oneOf", "anyOf", "allOf"):
         if comb in node:
             out = []
+            # constraints written beside the combinator (e.g. label.priority: minimum/maximum next to anyOf) apply to every leaf
+            inherited = {k: node[k] for k in ("minimum", "maximum", "exclusiveMinimum", "exclusiveMaximum") if k in node}
             for a in node[comb]:
-                out += _leaves(a, lo, hi)
+                for leaf, l3, h3 in _leaves(a, lo, hi):
+                    if inherited and leaf.get("type") in ("number", "integer"):
+                        leaf = dict(inherited, **leaf)
+                    out.append((leaf, l3, h3))
             return out
     return [(node, lo, hi)]
 
@@ -166,9 +171,11 @@ def classify(key, leaf, lo=None, hi=None):
             return Alt("expression", leaf, lo, hi)
         if d == "regex":
             return Alt("regex", leaf, lo, hi)
-        if "pattern" in leaf and "#" in leaf["pattern"]:
+        if "pattern" in leaf and "#" in leaf["pattern"] and "a-f" in leaf["pattern"]:
             return Alt("hexcolor", leaf, lo, hi)
-        return Alt("string", leaf, lo, hi, minlen=leaf.get("minLength"), maxlen=leaf.get("maxLength"))
+        m = re.fullmatch(r"\^([A-Za-z0-9_ -]+)\$", pat or "")
+        return Alt("string", leaf, lo, hi, minlen=leaf.get("minLength"), maxlen=leaf.get("maxLength"),
+                   literal=m.group(1) if m else None, pattern=pat or None)
     if t in ("number", "integer"):
         return Alt(t, leaf, lo, hi)
     if t == "boolean":
